@@ -321,9 +321,15 @@ def generate(repo):
     # ---- canvas end step
     cv = read(repo, 'conf-canvas.c')
     b = norm(func_body(cv, 'config_canvas_after_parse', 'conf-canvas.c'))
-    mm = len(b) == 1 and re.fullmatch(r'config_steps_add_script\(cf->canvas\.steps, ("[^"]*"), ("[^"]*")\);', b[0])
+    # two known bodies: the shipped one (the by-value vector pointer goes stale when adding "end" makes the vector grow:
+    # 16 steps abort, 32 list nothing) and the repaired one (/repo 8c850c1: room is reserved through the real vector first)
+    reserved = len(b) == 3 and b[0] == 'if (VECTOR_RESERVE(cf->canvas.steps, 1))' and b[1] == 'err(1, NULL);'
+    mm = (len(b) == 1 or reserved) and re.fullmatch(r'config_steps_add_script\(cf->canvas\.steps, ("[^"]*"), ("[^"]*")\);', b[-1])
     if not mm:
         raise ValueError('conf-canvas.c: config_canvas_after_parse changed')
+    out.append('(* config_canvas_after_parse reserves room for the end step before config_steps_add_script (which takes the\n'
+               '   vector by value) appends it: without that the step list is lost when the vector has to grow *)\n'
+               'Definition canvas_end_reserved : bool := %s.\n' % ('true' if reserved else 'false'))
     out.append('Definition canvas_end : bytes * bytes := (%s, %s).\n' % (cb(cstring(mm.group(1))), cb(cstring(mm.group(2)))))
     if norm(func_body(cv, 'config_canvas_get_steps', 'conf-canvas.c')) != ['return cf->canvas.steps;']:
         raise ValueError('conf-canvas.c: config_canvas_get_steps changed')
